@@ -13,6 +13,7 @@ import (
 	"strings"
 	"syscall"
 	"time"
+	"unicode/utf16"
 
 	"github.com/Vedant9500/WTF/internal/database"
 	"github.com/Vedant9500/WTF/internal/recovery"
@@ -77,6 +78,21 @@ func c15Place(path, kind, content string) {
 	switch kind {
 	case "good":
 		os.WriteFile(path, []byte(content), 0o644)
+	case "utf16le", "utf16be": // the same text as saved by an editor as "Unicode": a byte order mark, two bytes per character
+		b := []byte{0xff, 0xfe}
+		if kind == "utf16be" {
+			b = []byte{0xfe, 0xff}
+		}
+		for _, u := range utf16.Encode([]rune(content)) {
+			if kind == "utf16be" {
+				b = append(b, byte(u>>8), byte(u))
+			} else {
+				b = append(b, byte(u), byte(u>>8))
+			}
+		}
+		os.WriteFile(path, b, 0o644)
+	case "utf8bom":
+		os.WriteFile(path, append([]byte{0xef, 0xbb, 0xbf}, content...), 0o644)
 	case "dir":
 		os.MkdirAll(path, 0o755)
 	case "unreadable":
@@ -107,6 +123,13 @@ func c15Gen(r *rand.Rand, id int) c15Case {
 		MaxNS: []int64{1000000, 3000000, 5000000000, 0}[r.Intn(4)]}
 	f := [][2]int64{{1, 1}, {2, 1}, {4, 1}, {3, 2}, {1, 2}, {16, 1}, {1024, 1}, {5, 4}}[r.Intn(8)]
 	c.Cfg.FactorNum, c.Cfg.FactorDen = f[0], f[1]
+	// well-formed files in the other encodings a YAML stream may legally use
+	if c.Main == "good" && id%5 >= 2 {
+		c.Main = []string{"utf16le", "utf16be", "utf8bom"}[id%5-2]
+	}
+	if c.Personal == "good" && id%2 == 1 {
+		c.Personal = []string{"utf16be", "utf16le"}[id/2%2]
+	}
 	return c
 }
 
@@ -163,10 +186,10 @@ func c15Run(c *c15Case, dir string) {
 	c15Place(mainP, c.Main, c15Good)
 	c15Place(pers, c.Personal, c15Pers)
 	c15Place(mainP+".backup", c.Backup, c15Good)
-	if c.Main == "good" {
+	if c.Main == "good" || strings.HasPrefix(c.Main, "utf") {
 		c.MainN = 3
 	}
-	if c.Personal == "good" {
+	if c.Personal == "good" || strings.HasPrefix(c.Personal, "utf") {
 		c.PersN = 1
 	}
 	if c.Personal == "dup" {
